@@ -220,6 +220,31 @@ LITERALS: List[Tuple[str, str]] = [
     ("floatlong", "1" * 4400 + ".5"), ("inthexlong", "0x" + "f" * 4400), ("strlong", "'" + "a" * 5000 + "'"),
 ]
 
+N_CORE_LITERALS = len(LITERALS)
+
+
+def _escape_sweep() -> List[Tuple[str, str]]:
+    """Round 4 — literal DECODING depends on the character that follows a backslash, not on the kind of the literal:
+    `celstr`/`celbytes` split the text with one regular expression (CEL_ESCAPES_PAT) and translate the pieces with a
+    table (CEL_ESCAPES) and a chain of prefix tests; the three must agree for every piece the pattern can produce.
+    So: a backslash followed by EVERY printable ASCII character (plus tab and three non-ASCII characters), in every
+    cooked literal form (string / bytes, both quote characters, triple-quoted), and the incomplete numeric escapes
+    (too few octal / hex / unicode digits). Appended after the core literals: corpus cases address literals by index."""
+    chars = [chr(i) for i in range(0x20, 0x7f)] + ["\t", "\u00e9", "\u20ac", "\U0001F431"]
+    forms = [("strbsx", "'", "'"), ("strbsx", '"', '"'), ("strbsx", '"""', '"""'),
+             ("bytesbsx", "b'", "'"), ("bytesbsx", 'b"', '"'), ("bytesbsx", "b'''", "'''"), ("bytesbsx", 'B"""', '"""')]
+    out: List[Tuple[str, str]] = []
+    for kind, op, cl in forms:
+        for ch in chars:
+            out.append((kind, f"{op}a\\{ch}z{cl}"))
+        for part in ("\\1", "\\12z", "\\8", "\\x4", "\\xg1", "\\u123", "\\u12g4", "\\U0001F43", "\\U0001F43g"):
+            out.append((kind.replace("bsx", "part"), f"{op}{part}{cl}"))
+        out.append((kind, f"{op}\\`{cl}"))
+    return out
+
+
+LITERALS += _escape_sweep()
+
 
 # ------------------------------------------------------------------------------------------------------
 # primitive sites
